@@ -371,3 +371,38 @@ def description_is_computed_not_remembered(ctx):
         ctx.check(not stores, f'{f.qualname}:stores nothing on the node', stores[0] if stores else f.node, 'pure function of the live modules',
                   f'`{src(stores[0]) if stores else ""}`: the report (or a part of it) is remembered on the node and reused for later describe requests: '
                   'a datatype property that changes afterwards is described with its old value while requests are validated with the new one', f)
+
+
+@rule('C06.R4c', min_instances=1)
+def writable_by_description_means_writable(ctx):
+    """`readonly` is a settable parameter property, but the write wrapper (write_<p>, what the dispatcher calls) is generated
+    with the CLASS, only `if wfunc or not pobj.readonly`: a configuration that sets readonly=False on a parameter that is
+    read-only and has no write method in its class must be refused (or the wrapper generated unconditionally) - otherwise the
+    description says readonly=false and every change fails with AttributeError (an InternalError reply)"""
+    m = ctx.m
+    hook = m.method(roles.HASACC, '__init_subclass__', inherited=False)
+    ctx.analysed(hook)
+    gen = [n for n in body_walk(hook.node) if isinstance(n, ast.If) and any(isinstance(x, ast.FunctionDef) and x.name == 'new_wfunc' for x in n.body)]
+    conditional = any('readonly' in src(n.test) for n in gen)
+    wrapper_defs = [x for x in ast.walk(hook.node) if isinstance(x, ast.FunctionDef) and x.name == 'new_wfunc']
+    if not wrapper_defs:
+        raise AnchorMissing('write wrapper new_wfunc not found in __init_subclass__')
+    if not conditional and not gen:
+        ctx.ok(f'{hook.qualname}:a configuration can not describe a parameter as writable that has no write path', hook.node,
+               'the write wrapper is generated for every parameter', hook)
+        return
+    aa = m.method(roles.MODULE, '_add_accessible', inherited=False)
+    ctx.analysed(aa)
+    guards = []
+    for n in body_walk(aa.node):
+        if isinstance(n, ast.If) and 'readonly' in src(n.test) and any(isinstance(c, ast.Call) and dotted(c.func) == 'hasattr' and "'write_'" in src(c)
+                                                                        for c in ast.walk(n.test)):
+            if any(call_attr(c) == 'append' and 'errors' in src(c.func) for st in n.body for c in calls_in(st)) or \
+                    any(isinstance(x, ast.Raise) for st in n.body for x in walk_local(st)):
+                guards.append(n)
+    ctx.check(bool(guards), f'{hook.qualname}:a configuration can not describe a parameter as writable that has no write path', gen[0] if gen else hook.node,
+              '_add_accessible reports a configuration error for readonly=False without write method',
+              f'the write wrapper is generated only `if {src(gen[0].test) if gen else "?"}` (class level) while `readonly` can be set to False per '
+              'instance by the configuration and nothing checks that write_<p> exists then: the description shows readonly=false, the '
+              'dispatcher passes its readonly test and `getattr(moduleobj, "write_" + pname)` raises AttributeError - the client gets an '
+              'InternalError for every change', hook)
